@@ -1528,6 +1528,9 @@ func main() {
 			"that fails at EVERY invocation, every unresolvable name, a referenced template with a syntax error) is rendered three times on the same engine, template cache " +
 			"on and off — every render must fail with the cause reachable; and every fault is switched on and off between five renders on one engine (template replaced by a " +
 			"failing version through RegisterString / through the loader with cache off / with auto-reload, and back; loader or callback that starts to fail and recovers). " +
+			"Expression forms include a filter applied to a base that itself contains another filter outside the chain (call argument, list, hash, parenthesised operand, " +
+			"ternary arm, filter argument, item access; one and two deep), every filter failing / unknown in turn; the call sites of these branch-free forms count as reached " +
+			"whenever one of them is invoked (an engine that skips one of them still has to report an unknown name there). " +
 			"Non-trivial = the armed invocation really happened (or the renamed site is reached in the fault-free run)",
 		Assumptions: []string{
 			"positions and expression forms outside the listed corpus are not explored; at most two failures per render",
@@ -1548,6 +1551,7 @@ func runAll(t *vlib.T) {
 	bases := make([]baseline, len(progs))
 	for i, pr := range progs {
 		bases[i] = computeBaseline(pr)
+		t.Progress() // every worker renders the whole corpus once before its first case
 	}
 	quickModes := []string{"R", "D", "W", "T"}
 	useModes := quickModes
@@ -1575,6 +1579,10 @@ func runAll(t *vlib.T) {
 	// phase 0: baselines in every mode
 	for _, mode := range useModes {
 		for _, pr := range progs {
+			if t.Stopped() {
+				return // the deadline was reached: the rest of the enumeration is not covered (exhaustive:false)
+			}
+			t.Progress()
 			pr, mode := pr, mode
 			if skip(pr, mode) {
 				continue
@@ -1584,6 +1592,10 @@ func runAll(t *vlib.T) {
 	}
 	// phase 0b: programs with Live sites — were all of them invoked in the fault-free run?
 	for i, pr := range progs {
+		if t.Stopped() {
+			return // the deadline was reached: the rest of the enumeration is not covered (exhaustive:false)
+		}
+		t.Progress()
 		if !bases[i].ok {
 			continue
 		}
@@ -1599,6 +1611,10 @@ func runAll(t *vlib.T) {
 	// phase 1: single faults, mode by mode (plain mode first)
 	for _, mode := range useModes {
 		for i, pr := range progs {
+			if t.Stopped() {
+				return // the deadline was reached: the rest of the enumeration is not covered (exhaustive:false)
+			}
+			t.Progress()
 			b := bases[i]
 			if !b.ok || skip(pr, mode) {
 				continue
@@ -1639,6 +1655,10 @@ func runAll(t *vlib.T) {
 	}
 	for _, mode := range nameModes {
 		for i, pr := range progs {
+			if t.Stopped() {
+				return // the deadline was reached: the rest of the enumeration is not covered (exhaustive:false)
+			}
+			t.Progress()
 			b := bases[i]
 			if !b.ok {
 				continue
@@ -1686,6 +1706,10 @@ func runAll(t *vlib.T) {
 	// directory: failing callbacks; the resolved target missing, with a syntax error, unreadable
 	for _, mode := range nameModes {
 		for i, pr := range progs {
+			if t.Stopped() {
+				return // the deadline was reached: the rest of the enumeration is not covered (exhaustive:false)
+			}
+			t.Progress()
 			b := bases[i]
 			if !b.ok || !pr.pos.rel || pr.nested {
 				continue
@@ -1758,6 +1782,10 @@ func runAll(t *vlib.T) {
 	}
 	for _, cache := range []string{"on", "off"} {
 		for i, pr := range progs {
+			if t.Stopped() {
+				return // the deadline was reached: the rest of the enumeration is not covered (exhaustive:false)
+			}
+			t.Progress()
 			b := bases[i]
 			if !b.ok || (cache == "off" && pr.hasAPITemplate()) {
 				continue
@@ -1845,6 +1873,10 @@ func runAll(t *vlib.T) {
 	}
 	for _, mode := range seqModes {
 		for i, pr := range progs {
+			if t.Stopped() {
+				return // the deadline was reached: the rest of the enumeration is not covered (exhaustive:false)
+			}
+			t.Progress()
 			b := bases[i]
 			if !b.ok {
 				continue
@@ -1921,6 +1953,10 @@ func runAll(t *vlib.T) {
 	if t.Thorough() {
 		for _, mode := range []string{"R", "D"} {
 			for i, pr := range progs {
+				if t.Stopped() {
+					return // the deadline was reached: the rest of the enumeration is not covered (exhaustive:false)
+				}
+				t.Progress()
 				b := bases[i]
 				if !b.ok {
 					continue
